@@ -4,7 +4,7 @@
    conditions are decided by computation. *)
 From Coq Require Import List ZArith NArith Bool String Permutation.
 From YVGen Require Import Consts ValueArms.
-From YV Require Import Num ValueEq HashMapModel HashMapProofs RangeCache RangeCacheModel.
+From YV Require Import Num ValueEq HashMapModel HashMapProofs RangeCache RangeCacheModel HashMapScaleProofs.
 Import ListNotations.
 
 Definition norm_neg_zero : bool := ValueArms.hash_number_normalises_neg_zero.
@@ -93,6 +93,41 @@ Theorem C12_range_identity_beyond :
               forall norm h, vhash norm h x = vhash norm h y.
 Proof. exact range_identity_beyond_8. Qed.
 
+(* --- SCALE (round 9): nothing depends on how deep or how wide a key is.  `path ids node leaf n` = the cons-list
+   key `(node, rest)` with n links of the nesting-depth ladder of tools/props/C12.py, for EVERY n --- *)
+Theorem C12_deep_key_hashable : forall ids node leaf n,
+  (forall i, has_hash (node i) = true) -> has_hash leaf = true -> has_hash (path ids node leaf n) = true.
+Proof. exact deep_key_hashable. Qed.
+Theorem C12_deep_key_unhashable : forall ids node leaf n,
+  has_hash leaf = false -> has_hash (path ids node leaf n) = false.
+Proof. exact deep_key_unhashable. Qed.
+Theorem C12_wide_key_hashable : forall id l, Forall (fun x => has_hash x = true) l -> has_hash (KTuple id l) = true.
+Proof. exact wide_key_hashable. Qed.
+Theorem C12_wide_key_unhashable : forall id l x, In x l -> has_hash x = false -> has_hash (KTuple id l) = false.
+Proof. exact wide_key_unhashable. Qed.
+Theorem C12_deep_key_eq : forall ids ids' node leaf n,
+  (forall i, veq (node i) (node i) = true) -> veq leaf leaf = true ->
+  veq (path ids node leaf n) (path ids' node leaf n) = true.
+Proof. exact deep_key_eq. Qed.
+Theorem C12_deep_key_neq : forall ids ids' node leaf leaf' n,
+  veq leaf leaf' = false -> kv_same leaf leaf' = false ->
+  veq (path ids node leaf n) (path ids' node leaf' n) = false /\
+  kv_same (path ids node leaf n) (path ids' node leaf' n) = false.
+Proof. exact deep_key_neq. Qed.
+(* the session of the ladder on the mechanism M, at every depth n: p and q are the same path built twice, o differs
+   at the innermost position only *)
+Theorem C12_deep_key_roundtrip : forall (V : Type) ids ids' node leaf leaf' n (v w : V),
+  (forall i, has_hash (node i) = true) -> (forall i, veq (node i) (node i) = true) ->
+  has_hash leaf = true -> veq leaf leaf = true ->
+  has_hash leaf' = true -> veq leaf' leaf = false -> kv_same leaf' leaf = false ->
+  let p := path ids node leaf n in
+  let q := path ids' node leaf n in
+  let o := path ids' node leaf' n in
+  fst (m_run kv V veq (vhash norm_neg_zero hc) has_hash []
+         [OInsert p v; OHasKey q; OGet q; OLen; OHasKey o; OInsert o w; OLen; OGet p]) =
+  [RVal None; RBool true; RVal (Some v); RLen 1; RBool false; RVal None; RLen 2; RVal (Some v)].
+Proof. exact (fun V => deep_key_roundtrip V norm_neg_zero hc C12_coherent_hashable). Qed.
+
 Print Assumptions C12_has_hash_arms.
 Print Assumptions C12_hash_arms.
 Print Assumptions C12_eq_arms.
@@ -110,6 +145,13 @@ Print Assumptions C12_coherent_refuted_without_normalisation.
 Print Assumptions C12_coherent_except_neg_zero.
 Print Assumptions C12_range_identity_within.
 Print Assumptions C12_range_identity_beyond.
+Print Assumptions C12_deep_key_hashable.
+Print Assumptions C12_deep_key_unhashable.
+Print Assumptions C12_wide_key_hashable.
+Print Assumptions C12_wide_key_unhashable.
+Print Assumptions C12_deep_key_eq.
+Print Assumptions C12_deep_key_neq.
+Print Assumptions C12_deep_key_roundtrip.
 
 (* ======================================================================================================== *)
 (* R2G block (added; see notes/R2G.md): utils::hash_number, TRANSLATED from the current utils.rs into
